@@ -288,7 +288,7 @@ def _rn_indirect_nullable_tail(v, ctx):
     direct = {n for n, alts in rules.items() if any(len(a) == 0 for a in alts)}
     strs = G.string_terminals(text)
     # X1: X1 X | X  and  X1: X1 Sep X | X with a separator without content are vectors
-    vec_helpers = {n for n, alts in rules.items() if len(alts) == 2 and n.endswith("1") and alts[0][0] == n
+    vec_helpers = {n for n, alts in rules.items() if len(alts) == 2 and n.endswith("1") and alts[0][:1] == [n]
                    and alts[1] == alts[0][-1:]
                    and (len(alts[0]) == 2 or (len(alts[0]) == 3 and (alts[0][1] in strs or alts[0][1].startswith(("'", '"')))))}
     for n, alts in rules.items():
